@@ -99,6 +99,12 @@ impl MaslLibrary {
             ));
         }
 
+        // the set of dependencies is kept sorted and free of duplicates; this is also the form in
+        // which it is read back from a serialized library
+        let mut dependencies = dependencies;
+        dependencies.sort();
+        dependencies.dedup();
+
         Ok(Self {
             namespace,
             version,
